@@ -19,7 +19,7 @@ LEVEL = 'exploration'
 TECHNIQUE = ('exhaustive enumeration of pumping families (unit alphabet derived from the regex patterns) x contexts x suffixes x '
              'doubling lengths up to a bound, CPU-time oracle in killable isolated workers')
 LEVEL_TEXT = ('Every unit of a run-time derived alphabet (every literal character and character-class member of every compiled '
-              'pattern in pytrs.parser.rgxlib, plus ~45 short tokens) is pumped in 12 contexts x 7 suffixes with n = 4, 8, 16, ... up to '
+              'pattern in pytrs.parser.rgxlib, plus ~45 short tokens) is pumped in 13 contexts x 7 suffixes (and, as a bare Tract, in 7 x 4 contexts) with n = 4, 8, 16, ... up to '
               '300 (quick) / 600 (thorough) characters; thorough adds all two-unit alternations; 32 structural families (repeated '
               'Twp/Rge lines, section headers, lots, lists, aliquots, chains; ranges with k-digit end points and repeated maximal ranges, '
               'whose expansion is large although the text is short), whitespace runs around every pattern word, and every short token '
@@ -56,7 +56,11 @@ PREFIXES = [
     'T154N-R97W Sec 14: Lot 1 [',
     'Section 4',
     'NE/4 of Section 4',
+    'T154N-R97W Sec 14: N/2N/2NE/4 of',
 ]
+# Tract-level pumping (the Tract sees its text raw: whitespace runs are not reduced as in a PLSSDesc)
+TRACT_PREFIXES = ['', 'N/2', 'N/2N/2NE/4 of', 'Lot 1', 'N/2 of Lot 1', 'N½' * 20 + ' of', 'NE']
+TRACT_SUFFIXES = ['', ' x', ' NE/4', ' Lot 2']
 SUFFIXES = ['', ' x', ' P.M.', ': NE/4', ' Sec 15: Lot 2, T155N-R97W', ' T155N-R97W: NE/4', ', T155N-R97W']
 TOKENS = ['. ', ', ', '; ', ': ', '- ', ' - ', 'and ', ' and ', '& ', ' of ', ' the ', ' of the ', ' to ', ' thru ', ' through ',
           'Sec ', 'Sec. ', 'Section ', '1 ', '1, ', '14 ', '1 - ', 'Lot ', 'Lots ', 'Lot 1 ', 'L1 ', 'N/2', 'N/2 ', 'NE', 'NE ', 'NE/4',
@@ -238,6 +242,8 @@ def units(tier):
                 us.append({'k': 'pump2', 'mode': None, 'p': pi, 'a': a, 'bs': toks})
     for u in punct_units():
         us.append({'k': 'pump_punct', 'mode': None, 'u': [u]})
+    for u in allu:
+        us.append({'k': 'pump_tract', 'mode': None, 'u': [u]})
     for kw in keyword_runs():
         us.append({'k': 'ws_kw', 'mode': None, 'kw': kw})
     from .. import soup
@@ -256,7 +262,8 @@ def units(tier):
 def space(tier):
     chars, pats = alphabet()
     return {'bound': f"texts <= {MAXLEN[tier]} characters; {len(all_units())} units ({len(chars)} characters derived from {pats} "
-                     f"compiled patterns) x {len(PREFIXES)} prefixes x {len(SUFFIXES)} suffixes x doubling n; "
+                     f"compiled patterns) x {len(PREFIXES)} prefixes x {len(SUFFIXES)} suffixes x doubling n; the same units pumped in a bare Tract "
+                     f"({len(TRACT_PREFIXES)} prefixes x {len(TRACT_SUFFIXES)} suffixes x 2 configurations); "
                      f"plus {len(punct_units())} 'pattern word + punctuation' units in 5 contexts x 3 suffixes; {len(keyword_runs())} pattern words x "
                      f"{len(WS_UNITS)} whitespace units (runs of 1..30 before / after the word); every sequence of <= 3 of the 29 vocabulary tokens x "
                      f"{len(SOUP_WS)} joiners; every sequence of <= {SOUP_DEPTH[tier]} of {len(TRACT_TOKENS)} tract tokens x {len(TRACT_CFGS)} configurations (Tract); {len(STRUCT_FAMILIES)} structural "
@@ -401,6 +408,23 @@ def run_unit(unit, tier):
         for pi in (1, 2, 3, 4, 10):
             for si in (0, 3, 5):
                 pump_family(acc, tier, unit['mode'], pi, unit['u'], si)
+    elif unit['k'] == 'pump_tract':
+        body = ''.join(unit['u'])
+        for pre in TRACT_PREFIXES:
+            for suf in TRACT_SUFFIXES:
+                for cfg in (None, 'clean_qq'):
+                    fam = f"tract|{cfg}|{pre[:14]!r}|{body!r}|{suf!r}"
+                    room = MAXLEN[tier] - len(pre) - len(suf)
+                    mmax = room // max(1, len(body))
+                    n = 8
+                    while True:
+                        n = min(n, mmax)
+                        if n < 1:
+                            break
+                        dt = measure(acc, fam, pre + body * n + suf, cfg, tract=True)
+                        if dt > LIMIT or n == mmax:
+                            break
+                        n *= 4
     elif unit['k'] == 'ws_kw':
         # a run of (possibly mixed) whitespace directly before / after a word that the patterns react to, at the end of the text
         # or followed by more text: scanning loops that step over whitespace must still advance
